@@ -163,6 +163,8 @@ func cliLineText(l line, idx int) string {
 		return cliTag + " OK Begin TLS negotiation now"
 	case "TOKC":
 		return cliTag + " OK [CAPABILITY " + evilCaps + "] Begin TLS negotiation now"
+	case "CONT":
+		return "+ aW5qZWN0ZWQgaW4gcGxhaW50ZXh0" // a continuation request nobody asked for
 	case "CAPS":
 		return "* CAPABILITY " + evilCaps
 	case "OKCAPS":
@@ -483,6 +485,8 @@ type result struct {
 	// a line the server wrote in plaintext that offers an authentication mechanism (in a capability list: greeting
 	// code, CAPABILITY response, any response code)
 	plainAuth string
+	// Idle() returned inside TLS before the peer had sent its continuation request there
+	stalePlus bool
 }
 
 // offersAuth: does the line carry a capability list that offers credentials-bearing authentication?
@@ -756,6 +760,7 @@ func stateName(s imap.ConnState) string {
 }
 
 func runClient(cs *caseT) *result {
+	var contSent int32 // the TLS peer has written its "+ idling"
 	res := &result{}
 	x := newCtx()
 	peer, cc := vh.NewConnPair()
@@ -871,6 +876,15 @@ func runClient(cs *caseT) *result {
 				io.WriteString(ts, "* CAPABILITY "+tlsCaps+"\r\n"+f[0]+" OK done\r\n")
 			case "NOOP":
 				io.WriteString(ts, f[0]+" OK done\r\n")
+			case "IDLE":
+				// the continuation request comes late: one that was received earlier (in plaintext) must not do
+				time.Sleep(30 * time.Millisecond)
+				atomic.StoreInt32(&contSent, 1)
+				io.WriteString(ts, "+ idling\r\n")
+				if ln, err := tlr.ReadLine(3 * time.Second); err != nil || !strings.EqualFold(strings.TrimSpace(ln), "DONE") {
+					return
+				}
+				io.WriteString(ts, f[0]+" OK done\r\n")
 			case "LOGOUT":
 				io.WriteString(ts, "* BYE bye\r\n"+f[0]+" OK done\r\n")
 				return
@@ -938,6 +952,26 @@ func runClient(cs *caseT) *result {
 			case cps := <-cd:
 				final = capList(cps)
 			case <-time.After(3 * time.Second):
+			}
+		}
+		// a command that waits for a continuation request, inside TLS: only the peer's own "+ idling" may satisfy it
+		if nr.c.State() != imap.ConnStateLogout && res.hung == "" {
+			type idleRes struct {
+				cmd *imapclient.IdleCommand
+				err error
+			}
+			ic := make(chan idleRes, 1)
+			go func() { cmd, err := nr.c.Idle(); ic <- idleRes{cmd, err} }()
+			select {
+			case ir := <-ic:
+				if ir.err == nil {
+					if atomic.LoadInt32(&contSent) == 0 {
+						res.stalePlus = true
+					}
+					ir.cmd.Close()
+					ir.cmd.Wait()
+				}
+			case <-time.After(2 * time.Second):
 			}
 		}
 		end["caps"] = final
@@ -1166,6 +1200,9 @@ func judge(cs *caseT, r *result) *verdict {
 // plainOffer: a server that is not configured to take credentials in the clear must not offer to, in anything it
 // writes before TLS is active (the completion of STARTTLS included: it is written in plaintext)
 func plainOffer(cs *caseT, r *result) *verdict {
+	if cs.Side == "client" && r.stalePlus {
+		return &verdict{"continuation-from-plaintext", "Idle() returned inside TLS before the peer had sent its continuation request there: a `+` received in plaintext was taken for it"}
+	}
 	if cs.Side == "server" && r.plainAuth != "" && !cs.Cfg.InsecureAuth && !cs.Cfg.TLS {
 		return &verdict{"plaintext-offers-auth", fmt.Sprintf("the server wrote %q on the unencrypted connection (InsecureAuth is off)", r.plainAuth)}
 	}
@@ -1310,7 +1347,7 @@ var (
 	srvRandCmds = []string{"LOGIN", "NOOP", "CAPABILITY", "CREATE", "AUTHENTICATE", "AUTHENTICATE-X", "DELETE", "SUBSCRIBE", "UNSUBSCRIBE",
 		"SELECT", "EXAMINE", "STATUS", "LIST", "LSUB", "RENAME", "ENABLE", "NAMESPACE", "CHECK", "UNSELECT", "CLOSE", "EXPUNGE",
 		"FETCH", "UID FETCH", "STORE", "COPY", "MOVE", "SEARCH", "LOGOUT", "XUNKNOWN", "STARTTLS", "UNAUTHENTICATE"}
-	cliRandPre    = []string{"EXISTS", "EXPUNGE", "CAPS", "OKTEXT"}
+	cliRandPre    = []string{"EXISTS", "EXPUNGE", "CAPS", "OKTEXT", "CONT"}
 	cliRandSuffix = []string{"OKCAPS", "CAPS", "EXISTS", "EXPUNGE", "TAGGED", "BYE", "PREAUTH", "OKTEXT", "NO", "BAD", "FLAGS", "LIST", "GARBAGE"}
 	greetings     = []string{"GOK", "GOKC", "GOKC", "GPREAUTH", "GBYE"}
 )
